@@ -304,22 +304,26 @@ def run(ctx):
     r08_6(ctx)
     # no worker is forked after terminate() signalled the pool: the refill loop re-checks the state
     from .c09 import r09_1
-    r09_1(ctx)
+    r09_1(ctx, refill=False)
     # the feeder stops handing out queued tasks as soon as the pool is terminated
     from .c01 import feeder_serves_while_running
-    feeder_serves_while_running(ctx, 'R08.7')
+    feeder_serves_while_running(ctx, 'R08.7', parts='b')
     # a reader killed in the middle of a message must not leave the pipe lock held
-    from .c16 import r16_1
-    r16_1(ctx)
+    from .c16 import simple_queue_io_under_lock
+    ctx.rule('R08.8', 'the pool\'s pipes are read and written inside `with <lock>`: a worker stopped by the '
+                      'termination signal in the middle of a message gives the lock back', floor=2)
+    simple_queue_io_under_lock(ctx, 'R08.8')
 
 
 _P ='billiard/pool.py'
 _C = 'billiard/common.py'
 MUTANTS = [
+    ('refill-state-checked-once', _P, "        for i in range(self._processes - len(self._pool)):\n            if self._state != RUN:\n                return\n",
+     "        if self._state != RUN:\n            return\n        for i in range(self._processes - len(self._pool)):\n", 'R09.1'),
     ('feeder-state-checked-once-per-sequence', _P, "                for i, task in enumerate(taskseq):\n                    if self._state:\n                        debug('task handler found thread._state != RUN')\n                        break\n                    try:\n",
      "                if self._state:\n                    break\n                for i, task in enumerate(taskseq):\n                    try:\n", 'R08.7'),
     ('pipe-read-lock-not-released-on-error', 'billiard/queues.py', "        with self._rlock:\n            return self._reader.recv_bytes()\n",
-     "        self._rlock.acquire()\n        res = self._reader.recv_bytes()\n        self._rlock.release()\n        return res\n", 'R16.1'),
+     "        self._rlock.acquire()\n        res = self._reader.recv_bytes()\n        self._rlock.release()\n        return res\n", 'R08.8'),
     ('swallow-systemexit', _P,
      "                        if (isinstance(exc, SystemExit) and\n                                _should_have_exited[0]):\n",
      "                        if False:\n", 'R08.1'),
